@@ -767,14 +767,14 @@ const NUMERALS: [&str; 40] = [
     "18446744073709551615x", "184467440737095516150",
 ];
 
-const FLOATS: [&str; 64] = [
+const FLOATS: [&str; 66] = [
     "0", "-0", "0.0", "1", "1.", ".5", ".", "1e3", "1E3", "1e+3", "1e-3", "1e", "1e+", "e5", "+1.5", "-1.5", "-1", "-0.5",
     "-1e-9", "inf", "-inf", "+inf", "Infinity", "-INFINITY", "infinit", "nan", "NaN", "-nan", "nanx", "", " 1", "1 ",
     "1_0", "0x1p3", "1661978265.280067", "1661978265.2800675", "1661978265280.9", "1661978265280", "0.000000001",
     "0.0000000005", "0.0000000015", "0.0000000025", "0.00000000049", "8210266876799.5", "8210266876799.9999",
     "8210266876800", "8210266876799999.5", "8210266876800000", "18446744073709551615", "18446744073709551616",
     "1e19", "1e20", "1e300", "1e400", "-1e400", "9007199254740993", "0.1", "0.30000000000000004", "123456.789",
-    "4.35", "2.5e-9", "1.0000000005", "1,5", "١",
+    "4.35", "2.5e-9", "1.0000000005", "1,5", "١", "0.0009765625", "0.0029296875",
 ];
 
 const JSON_OTHER: [&str; 16] = [
